@@ -26,7 +26,8 @@ PROP = {
 
 MUTATORS = ["add_block", "remove_block", "replace_block", "set-data3D", "set-force_and_torque", "set-force_platforms_data", "set-events", "set-emg"]
 READERS = ["blocks", "get_block-type", "get_block-index", "get_block-out-of-range", "getitem", "data3D", "force_and_torque", "force_platforms_data", "events", "emg",
-           "calibrationData", "has_data3D", "has_force_and_torque", "has_events", "has_emg", "has_force_platforms_data", "len", "nBytes", "eq", "eq-bare", "repr", "copy", "copy-into-directory"]
+           "calibrationData", "has_data3D", "has_force_and_torque", "has_events", "has_emg", "has_force_platforms_data", "len", "nBytes", "eq", "eq-bare", "repr", "copy", "copy-into-directory",
+           "iter-first", "iter-zip", "iter-all"]
 SETTER_TYPE = {"set-data3D": "data3D", "set-force_and_torque": "force3D", "set-force_platforms_data": "platData", "set-events": "events", "set-emg": "emg"}
 
 
@@ -97,6 +98,12 @@ class Interp:
             return f.read()
 
     def close(self):
+        for it in getattr(self, "kept_iterators", []):
+            try:
+                getattr(it, "close", lambda: None)()   # nothing of this case lives on into the next one
+            except Exception:
+                pass
+        self.kept_iterators = []
         for i, o in enumerate(self.objs):
             try:
                 if self.states[i]["inside"]:
@@ -217,6 +224,16 @@ class Interp:
         from .c07 import labelled_spec
 
         def blk(name):
+            if k % 4 == 3 and which != "add_block" and reftdf.TYPE_CODE[name] in self.live:
+                # the very content the file already holds (a block just read, stored again): "nothing to do" is not a permission
+                data_ = self.read()
+                e_ = next(e for _, e in reftdf.live(reftdf.parse_container(data_)) if e["type"] == reftdf.TYPE_CODE[name])
+                try:
+                    spec_ = reftdf.decode(name, e_["format"], data_[e_["offset"]:e_["offset"] + e_["size"]])[0]
+                    self.stats["stored-content-offered-again"] = self.stats.get("stored-content-offered-again", 0) + 1
+                    return specs.build(spec_)
+                except reftdf.RefError:
+                    pass
             if k == 2 and name == "emg":
                 # a block of more than a MiB (a writer that makes room for big blocks ahead of time shows)
                 n_ = 300_000
@@ -290,6 +307,19 @@ class Interp:
                 return t[k % max(1, self.N)]
             if which in ("data3D", "force_and_torque", "force_platforms_data", "events", "emg", "calibrationData") or which.startswith("has_"):
                 return getattr(t, which)
+            if which == "iter-first":
+                # a loop over the file that is not run to the end, its iterator kept alive by the caller: it = iter(t); next(it)
+                it = iter(t)
+                self.kept_iterators = getattr(self, "kept_iterators", []) + [it]
+                return next(it)
+            if which == "iter-zip":
+                it = iter(t)
+                self.kept_iterators = getattr(self, "kept_iterators", []) + [it]
+                return list(zip(it, range(1 + k % 2)))
+            if which == "iter-all":
+                import itertools
+
+                return list(itertools.islice(iter(t), self.N + 3))
             if which == "len":
                 return len(t)
             if which == "nBytes":
@@ -427,6 +457,8 @@ MODES = {
     "plain-context-after-a-write-session-whose-close-failed": [{"op": "limited-session"}, {"op": "enter"}],
     "no-context-after-a-write-session-whose-close-failed": [{"op": "limited-session"}],
     "double-allow_write-then-two-contexts": [{"op": "allow_write"}, {"op": "allow_write"}, {"op": "enter"}, {"op": "exit"}, {"op": "enter"}],
+    "armed-then-unfinished-loop-over-the-file": [{"op": "allow_write"}, {"op": "read", "which": "iter-first", "k": 0}],
+    "unfinished-loop-then-armed": [{"op": "read", "which": "iter-zip", "k": 1}, {"op": "allow_write"}],
 }
 
 
@@ -444,7 +476,7 @@ def enum_matrix(tier):
     for iname, image in _images().items():
         for mname, script in MODES.items():
             for mut in MUTATORS:
-                for k in (0, 1) + ((2,) if mut in ("add_block", "set-emg") else ()):
+                for k in (0, 1) + ((2,) if mut in ("add_block", "set-emg") else ()) + ((3,) if mut not in ("add_block", "remove_block") else ()):
                     yield {"init": image, "ops": list(script) + [{"op": "mutate", "which": mut, "k": k}], "_cell": f"{iname}|{mname}|{mut}"}
             for rd in READERS:
                 yield {"init": image, "ops": list(script) + [{"op": "read", "which": rd, "k": 1}], "_cell": f"{iname}|{mname}|reader:{rd}"}
